@@ -17,10 +17,30 @@ Import ListNotations.
 Open Scope list_scope.
 Open Scope Z_scope.
 
+(* Every path-producing API reachable from Options / the merklizer.  The resolvers'
+   `parts` are the output of the JSON-LD term / document resolution, which never
+   hashes; what the model states about them is WHICH HASHER the returned Path stores. *)
 Inductive pkind :=
-| PKOptions      (* mz.Options().NewPath(parts...)  (same hasher as PathFromContext,
-                    NewPathFromDocument, ResolveDocPath) *)
-| PKPackage.     (* merklize.NewPath(parts...) *)
+| PKOptions            (* mz.Options().NewPath(parts...) *)
+| PKPackage            (* merklize.NewPath(parts...) *)
+| PKFromContext        (* mz.Options().PathFromContext(ctxBytes, "Type.field")          merklize.go 85-89 *)
+| PKFieldFromContext   (* mz.Options().FieldPathFromContext(ctxBytes, type, fieldPath)  merklize.go 91-112 *)
+| PKFromDocument       (* mz.Options().NewPathFromDocument(docBytes, "a.b.0")           merklize.go 137-157 *)
+| PKResolveDoc.        (* mz.ResolveDocPath("a.b.0")                                     merklize.go 1714-1728 *)
+
+(* Options.PathFromContext: `out := Path{hasher: o.getHasher()}` *)
+Definition opt_path_from_context (Hd : hasher) (o : option hasher) (parts : list part) : path :=
+  mkpath parts (Some (opt_hasher Hd o)).
+(* Options.FieldPathFromContext: `Path{parts: fullPath.parts[len(typePath.parts):], hasher: o.getHasher()}` *)
+Definition opt_field_path_from_context (Hd : hasher) (o : option hasher) (parts : list part) : path :=
+  mkpath parts (Some (opt_hasher Hd o)).
+(* Options.NewPathFromDocument: `Path{parts: pathPartsI, hasher: o.getHasher()}` *)
+Definition opt_new_path_from_document (Hd : hasher) (o : option hasher) (parts : list part) : path :=
+  mkpath parts (Some (opt_hasher Hd o)).
+(* Merklizer.ResolveDocPath: `opts := Options{Hasher: mz.hasher}; if opts.Hasher == nil
+   { opts.Hasher = defaultHasher }; opts.NewPathFromDocument(mz.srcDoc, path)` *)
+Definition mz_resolve_doc_path (Hd : hasher) (m : mz) (parts : list part) : path :=
+  opt_new_path_from_document Hd (Some (hasher_or Hd (Some (mz_hasher m)))) parts.
 
 Inductive step :=
 | SRoot                                   (* mz.Root() *)
@@ -49,6 +69,10 @@ Definition mk_path (Hd : hasher) (m : mz) (pk : pkind) (parts : list part) : pat
   match pk with
   | PKOptions => mz_new_path Hd m parts
   | PKPackage => new_path Hd parts
+  | PKFromContext => opt_path_from_context Hd (mz_options m) parts
+  | PKFieldFromContext => opt_field_path_from_context Hd (mz_options m) parts
+  | PKFromDocument => opt_new_path_from_document Hd (mz_options m) parts
+  | PKResolveDoc => mz_resolve_doc_path Hd m parts
   end.
 
 Definition proof_step (T : tparams) (Hd : hasher) (m : mz) (p : path)
